@@ -46,7 +46,7 @@ package block
 //@   ensures [never-back] pb.lastHeight >= old(pb.lastHeight)
 
 //@ func submitToDA[T](m, ctx, items, marshalFn, postSubmit, itemType) (err)
-//@   property C06 C07
+//@   property C06 C07 C08
 //@   modifies m.headerCache.daInc, m.headerCache.daIncHas, m.dataCache.daInc, m.dataCache.daIncHas,
 //@            m.pendingHeaders.base.lastHeight, m.pendingData.base.lastHeight, durable m.store.meta, durable m.store.metaHas
 //@   requires [same-store] m.pendingHeaders.base.store == m.store && m.pendingData.base.store == m.store
@@ -75,7 +75,7 @@ package block
 //@   ensures [marshal] err == nil ==> val(bz) == coreda_Marshal(header)
 
 //@ func (m *Manager) submitHeadersToDA$2(submitted, res, gasPrice)
-//@   property C06 C07
+//@   property C06 C07 C08
 //@   modifies m.headerCache.daInc, m.headerCache.daIncHas, m.pendingHeaders.base.lastHeight,
 //@            durable m.pendingHeaders.base.store.meta[m.pendingHeaders.base.metaKey], durable m.pendingHeaders.base.store.metaHas[m.pendingHeaders.base.metaKey]
 //@   requires [success-only] res != nil && res.Code == coreda.StatusSuccess
@@ -94,7 +94,7 @@ package block
 //@   ensures [marshal] err == nil ==> val(bz) == coreda_Marshal(signedData)
 
 //@ func (m *Manager) submitDataToDA$2(submitted, res, gasPrice)
-//@   property C06 C07
+//@   property C06 C07 C08
 //@   modifies m.dataCache.daInc, m.dataCache.daIncHas, m.pendingData.base.lastHeight,
 //@            durable m.pendingData.base.store.meta[m.pendingData.base.metaKey], durable m.pendingData.base.store.metaHas[m.pendingData.base.metaKey]
 //@   requires [success-only] res != nil && res.Code == coreda.StatusSuccess
@@ -317,6 +317,8 @@ package block
 //@   observe hq := call Height@1
 //@   observe rb := call retrieveBatch
 //@   observe sh := call SetHeight
+//@   observe ghs := call getHeaderSignature
+//@   observe vl := call Validate
 //@   modifies m.lastState, m.lastBatchData, m.headerCache.seen,
 //@            durable m.store.height, durable m.store.stateAt, durable m.store.hasState, durable m.store.meta["l"], durable m.store.metaHas["l"],
 //@            durable m.store.has[m.store.height + 1], durable m.store.hdrAt[m.store.height + 1], durable m.store.hsigAt[m.store.height + 1],
@@ -334,6 +336,10 @@ package block
 //@   ensures [link] m.store.height == old(m.store.height) + 1 ==> Linked(m, m.store, m.store.height)
 //@   ensures [signed] m.store.height == old(m.store.height) + 1 ==> m.store.hdrAt[m.store.height].proposer == m.store.signerAddrAt[m.store.height]
 //@                       && Signed(pkraw(m.store.signerKeyAt[m.store.height]), Payload(m.store.hdrAt[m.store.height]), m.store.hsigAt[m.store.height])
+// the header that is validated (and then committed) carries the signature the signer produced for it in
+// this very step - also when the block was found pending in the store: what a pending header carries in
+// its signature field is not a signature of that header
+//@   ensures [signs-own-block] vl ==> ghs.count == 1 && ghs.res1 == nil && ghs.seq < vl.seq && val(vl.arg2.Signature) == val(ghs.res0) && HdrOf(vl.arg2) == HdrOf(ghs.arg1)
 //@   ensures [state] m.store.height == old(m.store.height) + 1 ==> m.lastState.LastBlockHeight == m.store.height
 //@                       && val(m.lastState.AppHash) == Exec(old(val(m.lastState.AppHash)), m.store.txsAt[m.store.height])
 //@   ensures [inv-state] !m.store.faulty ==> InvState(m)
@@ -574,7 +580,7 @@ package block
 // on a chain that starts now - no state, no submission watermarks - nothing counts as waiting for DA
 // submission, whatever the initial height is.
 //@ func NewManager(ctx, signer, config, genesis, store, exec, sequencer, da, logger, headerStore, dataStore, headerBroadcaster, dataBroadcaster, seqMetrics, gasPrice, gasMultiplier, managerOpts) (m, err)
-//@   property C04:height-is-state,height-never-lowered C05:height-is-state,height-never-lowered C06:nothing-pending-on-fresh-chain,watermarks-only-raised C07:da-included-restored,da-included-zero-on-fresh-chain C08:nothing-pending-on-fresh-chain
+//@   property C04:height-is-state,height-never-lowered C05:height-is-state,height-never-lowered C06:nothing-pending-on-fresh-chain,watermarks-only-raised,watermarks-exact C07:da-included-restored,da-included-zero-on-fresh-chain C08:nothing-pending-on-fresh-chain
 //@   requires [wiring] store != nil && exec != nil && logger != nil
 //@   requires [genesis] genesis.InitialHeight >= 1
 //@   requires [height-range] store.height < 18446744073709551615
@@ -591,6 +597,11 @@ package block
 // C07: the DA-included height a restarted node reports is the persisted one (never less), and a new chain starts at 0
 //@   ensures [da-included-restored] err == nil && !store.faulty && old(store.metaHas["d"]) && blen(old(store.meta["d"])) == 8 ==> m.daIncludedHeight == le64dec(old(store.meta["d"]))
 //@   ensures [da-included-zero-on-fresh-chain] err == nil && !store.faulty && !old(store.metaHas["d"]) ==> m.daIncludedHeight == 0
+// after start-up each submission watermark is the stored one, or InitialHeight-1 if that is larger: never
+// further - blocks committed before the restart and not yet accepted by the DA layer stay pending
+//@   ensures [watermarks-exact] err == nil && !store.faulty ==>
+//@                       m.pendingHeaders.base.lastHeight == max(ite(old(store.metaHas["last-submitted-header-height"]), le64dec(old(store.meta["last-submitted-header-height"])), 0), genesis.InitialHeight - 1)
+//@                       && m.pendingData.base.lastHeight == max(ite(old(store.metaHas["last-submitted-data-height"]), le64dec(old(store.meta["last-submitted-data-height"])), 0), genesis.InitialHeight - 1)
 //@   ensures [watermarks-only-raised] err == nil && old(store.metaHas["last-submitted-header-height"]) && !store.faulty
 //@                       ==> m.pendingHeaders.base.lastHeight >= le64dec(old(store.meta["last-submitted-header-height"]))
 
@@ -655,7 +666,7 @@ package block
 //@   ensures [future-msg] res.Code == coreda.StatusHeightFromFuture ==> msgHas(err, coreda.ErrHeightFromFuture)
 
 //@ func (m *Manager) handlePotentialHeader(ctx, bz, daHeight) (handled)
-//@   property C03 C07 C09
+//@   property C02 C03 C07 C09
 //@   nopanic
 //@   requires [wiring] m.metrics != nil && m.headerCache != nil && m.logger != nil && ctx != nil && len(m.genesis.ProposerAddress) > 0
 //@   observe iu := call isUsingExpectedSingleSequencer
@@ -666,9 +677,14 @@ package block
 //@   ensures [emit-genuine-only] sendCount("headerInCh") <= 1 && (sendCount("headerInCh") == 1 ==> iu && iu.res0 && sent("headerInCh").Header == iu.arg1 && sent("headerInCh").DAHeight == daHeight)
 //@   ensures [emit-unseen] iu && iu.res0 && !m.headerCache.seen[hexstr(HashHdr(HdrOf(iu.arg1)))] && !ctxDone(ctx) ==> sendCount("headerInCh") == 1
 //@   ensures [genuine-is-handled] iu && iu.res0 ==> handled
+// C07 (eventually reported): a header blob is only ever swallowed (handled, not marked DA-included) because it
+// did not decode or because it is not the proposer's - never because of what the node has seen before.
+// A block that arrived over P2P first still has to be marked when its blob shows up on the DA layer.
+//@   observe fpr := call FromProto
+//@   ensures [mark-every-genuine] handled && !sdi ==> (fpr && fpr.res0 != nil) || (iu && !iu.res0)
 
 //@ func (m *Manager) handlePotentialData(ctx, bz, daHeight)
-//@   property C03 C07 C09
+//@   property C02 C03 C07 C09
 //@   nopanic
 //@   requires [wiring] m.metrics != nil && m.dataCache != nil && m.logger != nil && ctx != nil && len(m.genesis.ProposerAddress) > 0
 //@   observe iv := call isValidSignedData
@@ -678,9 +694,12 @@ package block
 //@                       && sdi.arg1 == hexstr(CommitTxs(TxsId(iv.arg1.Data.Txs)))
 //@   ensures [emit-genuine-only] sendCount("dataInCh") <= 1 && (sendCount("dataInCh") == 1 ==> iv && iv.res0 && sent("dataInCh").DAHeight == daHeight)
 //@   ensures [emit-unseen] iv && iv.res0 && !m.dataCache.seen[hexstr(CommitTxs(TxsId(iv.arg1.Data.Txs)))] && !ctxDone(ctx) ==> sendCount("dataInCh") == 1
+//@   observe pu := call Unmarshal
+//@   observe fpd := call FromProto
+//@   ensures [mark-every-genuine] !sdi ==> (pu && pu.res0 != nil) || (fpd && fpd.res0 != nil) || len(signedData.Data.Txs) == 0 || signedData.Data.Metadata == nil || (iv && !iv.res0)
 
 //@ func (m *Manager) processNextDAHeaderAndData(ctx) (err)
-//@   property C09
+//@   property C02 C09
 //@   requires [wiring] m.metrics != nil && m.daHeight != nil && m.headerCache != nil && m.dataCache != nil && m.logger != nil && ctx != nil && len(m.genesis.ProposerAddress) > 0
 //@   observe fb := call fetchBlobs
 //@   observe hph := call handlePotentialHeader
@@ -700,7 +719,7 @@ package block
 //@   ensures [any] true
 
 //@ func (m *Manager) RetrieveLoop(ctx)
-//@   property C09
+//@   property C02 C09
 //@   requires [wiring] m.metrics != nil && m.daHeight != nil && m.headerCache != nil && m.dataCache != nil && ctx != nil && m.logger != nil && len(m.genesis.ProposerAddress) > 0
 //@   observe pn := call processNextDAHeaderAndData
 //@   modifies m.daHeight.v, m.headerCache.daInc, m.headerCache.daIncHas, m.dataCache.daInc, m.dataCache.daIncHas
